@@ -170,6 +170,47 @@ def str_event(tree: t.Dict[str, t.Any], shared: bool = False) -> t.Dict[str, t.A
     return e
 
 
+def edited_event(rnd: random.Random) -> t.Dict[str, t.Any]:
+    """A filter object that is converted to text, then edited in place (the child lists of AND / OR nodes are ordinary
+    lists: an application appends a clause, drops one, replaces one), then converted again: the text form is a function of
+    the tree as it is now, whatever was asked of the object before."""
+    import sansldap
+
+    inner = {"k": rnd.choice(("or", "and")), "fs": [r_tree(rnd, 0) for _ in range(rnd.randrange(1, 4))]}
+    a = {"k": rnd.choice(("and", "or")), "fs": [r_tree(rnd, 0), inner] + [r_tree(rnd, 1) for _ in range(rnd.randrange(0, 2))]}
+    if rnd.random() < 0.3:
+        a = {"k": "not", "f": a}
+    f = proj.filter_from_abstract(a)
+    e: t.Dict[str, t.Any] = {"op": "str", "tree": a, "text": [], "backres": "ok", "back": {"k": "none"}}
+    try:
+        top = f.filter if a["k"] == "not" else f
+        for x in rnd.sample([f, top, top.filters[1], top.filters[0]], rnd.randrange(1, 5)):
+            str(x)
+            repr(x)
+        tgt = top.filters[1] if rnd.random() < 0.7 else top
+        how = rnd.randrange(4)
+        newf = proj.filter_from_abstract(r_tree(rnd, rnd.randrange(0, 2)))
+        if how == 0:
+            tgt.filters.append(newf)
+        elif how == 1 and len(tgt.filters) > 1:
+            tgt.filters.pop(rnd.randrange(len(tgt.filters)))
+        elif how == 2:
+            tgt.filters[rnd.randrange(len(tgt.filters))] = newf
+        else:
+            tgt.filters.insert(0, newf)
+        e["tree"] = proj.filter_to_abstract(f)
+        text = str(f)
+        e["text"] = list(text.encode("utf-8", errors="surrogatepass"))
+    except BaseException as ex:  # noqa: BLE001
+        e["backres"] = "str:" + type(ex).__name__
+        return e
+    try:
+        e["back"] = proj.filter_to_abstract(sansldap.LDAPFilter.from_string(text))
+    except BaseException as ex:  # noqa: BLE001
+        e["backres"] = type(ex).__name__
+    return e
+
+
 # ---- random trees in the domain of C13 (D3, D4) -------------------------------------------------------------
 ATTRS = ["dn", "cn", "CN", "Cn", "objectClass", "OBJECTCLASS", "objectclass", "sn", "SN", "member;range-0-1", "userCertificate;binary", "1.2.840.113556.1.4.803", "2.5.4.3;lang-en", "a", "x-y-", "0.9.2342", "o;x-1;y-2"]
 RULES = ["caseExactMatch", "1.2.840.113556.1.4.803", "2.5.13.5", "x-rule", "dnSubtreeMatch", "dnQualifierMatch", "dn-1"]
@@ -278,6 +319,9 @@ def run_c13(tier: str, seed: int) -> int:
             tr = ({"k": "or", "fs": [c, c]} if shape == 0 else {"k": "and", "fs": [c, {"k": "not", "f": c}]} if shape == 1 else
                   {"k": "or", "fs": [{"k": "and", "fs": [c, r_tree(rnd, 0)]}, {"k": "and", "fs": [c, r_tree(rnd, 0)]}]} if shape == 2 else {"k": "not", "f": {"k": "and", "fs": [c, c, c]}})
             events.append(str_event(tr, shared=True))
+        # objects converted to text, edited in place, converted again
+        for _ in range(300 if tier == "quick" else 3000):
+            events.append(edited_event(rnd))
         for wt in wide_trees():
             we = str_event(wt)
             rep.case(str(wt)[:600])
